@@ -226,6 +226,13 @@ def parser_level(head, body, cuts):
     return (p.completed, err, bodyv, None if err else len(left), p.headers.get("CONTENT_LENGTH"))
 
 
+def fuzz_jobs(tier, seed, tag):
+    # coverage-guided campaigns (atheris): seeded corpus + dictionary, and an empty-corpus one
+    if tier == "quick":
+        return [{"kind": "fuzz", "runs": 4000, "seed": derive_seed(seed, tag, "fz", 0)}]
+    return [{"kind": "fuzz", "runs": 300000, "seed": derive_seed(seed, tag, "fz", i), "seed_corpus": i % 4 != 3, "max_total_time": 600} for i in range(16)]
+
+
 def jobs(tier, seed):
     js = []
     streams = corpus_streams()
@@ -238,6 +245,7 @@ def jobs(tier, seed):
     n = 700 if tier == "quick" else 30000
     for sh in range(16):
         js.append({"kind": "hyp", "n": n, "seed": derive_seed(seed, "c02", sh)})
+    js += fuzz_jobs(tier, seed, "c02")
     return js
 
 
@@ -256,6 +264,9 @@ def case_strategy():
 
 
 def run_job(job, col):
+    if job["kind"] == "fuzz":
+        from ..fuzz import run_fuzz_job
+        return run_fuzz_job(job, col, PID)
     def one(case):
         fs, nt, labels = run_case_full(case)
         col.record(case, fs, nontrivial=nt, labels=labels)
